@@ -512,7 +512,7 @@ pub fn info() -> PropInfo {
         id: "C07",
         run,
         replay,
-        rule: "cases = (target type, input text, entry point from_str or from_reader over a 3-byte BufReader). Targets: the 18 family types plus tuples, Vec of tuples, Option<struct>, (), String, HashMap, a struct of IgnoredAny, an enum with #[serde(other)] and $text, Vec<String>, bool, f64, char, Vec<enum>, a struct of Options incl. $text, lists of units. Inputs: valid documents (serialized generated values) after token-level mutation (insert/delete/duplicate/splice/replace of start tags, end tags, text, CDATA, comments, DOCTYPE incl. internal subsets, PIs, declarations, valid/unknown/malformed references, xsi:nil attributes, duplicate and malformed attributes), token soup over the same vocabulary, and every truncation of valid documents at every byte. Oracle: the call returns Ok or Err (catch_unwind); sequence/map targets use a counting visitor and a sequence that yields more items than the input has bytes is reported as non-termination; a watchdog maps other hangs to exit 2. Non-trivial = the input was mutated/truncated/soup and the event reader accepts its first event (it is not rejected at once).",
+        rule: "cases = (target type, input text, entry point from_str or from_reader over a 3-byte BufReader). Targets: the 20 family types plus tuples, Vec of tuples, Option<struct>, (), String, HashMap, a struct of IgnoredAny, an enum with #[serde(other)] and $text, Vec<String>, bool, f64, char, Vec<enum>, a struct of Options incl. $text, lists of units. Inputs: valid documents (serialized generated values) after token-level mutation (insert/delete/duplicate/splice/replace of start tags, end tags, text, CDATA, comments, DOCTYPE incl. internal subsets, PIs, declarations, valid/unknown/malformed references, xsi:nil attributes, duplicate and malformed attributes), token soup over the same vocabulary, and every truncation of valid documents at every byte. Oracle: the call returns Ok or Err (catch_unwind); sequence/map targets use a counting visitor and a sequence that yields more items than the input has bytes is reported as non-termination; a watchdog maps other hangs to exit 2. Non-trivial = the input was mutated/truncated/soup and the event reader accepts its first event (it is not rejected at once).",
         assumptions: &["a stack overflow on pathologically deep input would abort the process (reported as exit != 0/1 by the runner, not as a violation); generated nesting stays below 64"],
         level: "exploration",
         variants: &["full", "min"],
